@@ -104,3 +104,43 @@ def frame_edges(v, o, except_rows=()):
     return z3.ForAll([i, j], z3.Implies(z3.And(cond, 0 <= i, i < o.K),
                                         z3.And(v.edge[i][j] == o.edge[i][j], v.motifs[i][j] == o.motifs[i][j],
                                                v.motif0[i][j] == o.motif0[i][j])))
+
+
+def ext(v, o):
+    """monotone extension: the diagram v extends o; expanded nodes of o are untouched (C04: an expanded node never changes)"""
+    NODE_SAME = ("skipped", "succsig", "cand", "seeds", "sets")
+    return z3.And(
+        v.K >= o.K, v.net == o.net, v.sym == o.sym, v.pn == o.pn,
+        z3.ForAll([i], z3.Implies(z3.And(0 <= i, i < o.K), z3.And(
+            v.space[i] == o.space[i],
+            z3.Implies(o.expanded[i], z3.And(v.expanded[i], *[getattr(v, f)[i] == getattr(o, f)[i] for f in NODE_SAME]))))),
+        z3.ForAll([i, j], z3.Implies(z3.And(0 <= i, i < o.K, o.expanded[i]), z3.And(
+            v.edge[i][j] == o.edge[i][j],
+            z3.Implies(z3.And(0 <= j, j < o.K), z3.And(v.motifs[i][j] == o.motifs[i][j], v.motif0[i][j] == o.motif0[i][j]))))),
+    )
+
+
+# AllReachableExpanded(edge, expanded, start): every node reachable from `start` along edges is expanded.
+ARE = z3.Function("AllReachableExpanded", z3.ArraySort(I, z3.ArraySort(I, B)), z3.ArraySort(I, B), I, B)
+
+
+def are_intro(v, start, R):
+    """definition (introduction rule) of AllReachableExpanded with witness set R"""
+    return z3.Implies(z3.And(R[start], z3.ForAll([i], z3.Implies(R[i], z3.And(v.expanded[i], z3.ForAll([j], z3.Implies(v.edge[i][j], R[j])))))),
+                      ARE(v.edge, v.expanded, start))
+
+
+def ext_trans(v2, v1, o):
+    """instance of the schema lemma S.ext_transitive (proved by SMT on every run, see schema_lemmas)"""
+    return z3.Implies(z3.And(ext(v2, v1), ext(v1, o), v1.K >= o.K), ext(v2, o))
+
+
+def schema_lemmas():
+    """name -> closed formula over fresh symbolic views; each must be VALID (proved by z3 at check time)"""
+    import types
+    from pyvc import engine as E
+    def fresh(nm):
+        st = E.State()
+        return M.View(E.HeapObj("SD", M.fresh_fields(None, st, nm)))
+    a, b, c = fresh("va"), fresh("vb"), fresh("vc")
+    return {"S.ext_transitive": ext_trans(a, b, c)}
